@@ -9,6 +9,7 @@ from checks.common import result
 from checks.history import gen_store_faults
 from model import build as B
 from model import machine, ref, worldgen
+from simkit import sched
 
 LIMIT_FRAMES = 4  # MAX_TRACEBACK_DEPTH (3) + 1 frames, then the truncation marker
 
@@ -28,7 +29,9 @@ def generate(prop, seed, tier):
     # where the plan-building helpers live: scripts, notebooks (ipykernel compiles cells under such paths), REPL
     world["helper_file"] = rng.choice([None, None, "/tmp/ipykernel_4242/3141592653.py", "<ipython-input-7-2f1c>",
                                        "/home/u/my project/build plan.py", "/opt/site-packages/IPython/extensions/jobs.py",
-                                       "<stdin>", "C:\\Users\\u\\plan.py", "/srv/app/ipykernel_launcher_jobs.py"])
+                                       "<stdin>", "C:\\Users\\u\\plan.py", "/srv/app/ipykernel_launcher_jobs.py",
+                                       "<PKG>_pipelines/build.py", "<PKG>_jobs.py", "<PKGPARENT>/uberjobs/plan.py"])
+    world["creator_in_helper"] = rng.random() < 0.5   # the creating line itself lives in the helper file
     cfg = worldgen.gen_cfg(rng, world, registry=registry, retry_p=0.2)
     cfg["max_errors"] = rng.choice([0, 0, 1, None])
     sc = worldgen.gen_sched(rng)
@@ -119,8 +122,8 @@ def build_concurrently(desc):
     holder, foreign = [], []
 
     def other():
-        while not (holder and holder[0].plan is not None):
-            sim.yield_("wait-for-plan")
+        # (a blocking wait, not a busy one: under a priority-based strategy a spinning thread would starve the builder)
+        sim.block(lambda: bool(holder) and holder[0].plan is not None, None, what="wait-for-plan")
         plan = holder[0].plan
         reg2 = uberjob.Registry()
         for k in range(cb["n"]):
@@ -175,8 +178,9 @@ def execute(prop, desc):
 
         shims.install_node_hash(desc["sched"].get("salt", 0))
         built, foreign, bsim = build_concurrently(desc)
-        if bsim.hung is not None or bsim.thread_deaths:
-            pre.append(O.V("concurrent-build-failed", f"building one Plan from two threads: {bsim.hung or bsim.thread_deaths}"))
+        if built is None or bsim.hung is not None or bsim.thread_deaths:
+            # (building does not block on anything in the code under test: treat this as the harness's own failure)
+            raise sched.HarnessError(f"concurrent plan building did not finish: {bsim.hung or bsim.thread_deaths}")
         # every node carries the frames of the line that created it, whichever thread ran in between
         for key, fr in sorted(built.frames.items(), key=repr):
             if key[0] != "node" or ref.by_id(world)[key[1]]["kind"] == "item":
